@@ -330,6 +330,114 @@ def run(ctx):
     ctx.ob("R09.7", "port_is_enabled: walker on the enabling toggle", not bad7, site=A.where(wcalls[0]), detail={"guard": A.src(inner), "cases": 8, "mismatches": bad7},
            what="port_is_enabled reports the enabling toggle to the walker under `%s`: wrong for %s - a toggle that ordinary traversal also reaches is reported twice, one that it does not reach is not reported at all" % (A.src(inner), bad7[:2]))
 
+    # ---------------- R09.8
+    ctx.rule("R09.8", "NAME-CURSOR: in the walker functions a string function is handed `cursor + k` (k >= 1) only where the k bytes stepped over are known not to be the terminator (the call sits on the true side of a test of `*cursor`, or after an early exit on `!*cursor`) - a port name may end exactly at the cursor (`name#N/`)")
+    SCAN_FNS = ("strchr", "strrchr", "strstr", "strlen", "atoi", "strcmp", "strncmp", "strpbrk", "strcspn", "strspn")
+    n8 = 0
+    for q8 in ("walk_ports_recurse0", "walk_ports_recurse", "walk_ports", "bundle_foreach"):
+        for fn8 in upp.functions.get(q8, []) + [f_ for qq, fl in upp.functions.items() if qq.endswith("::" + q8) for f_ in fl]:
+            b8 = upp.body(fn8)
+            if b8 is None:
+                continue
+            for c8 in A.calls_in(b8):
+                if A.callee_name(c8) not in SCAN_FNS:
+                    continue
+                for a8 in A.kids(c8)[1:]:
+                    e8 = A.strip_casts(a8)
+                    if not (e8.get("kind") == "BinaryOperator" and e8.get("opcode") == "+"):
+                        continue
+                    l8, r8 = A.kids(e8)
+                    k8 = A.int_literal(r8)
+                    pid8 = A.ref_id(l8)
+                    if k8 is None or k8 < 1 or pid8 is None:
+                        continue
+                    d8 = upp.by_id.get(pid8)
+                    if d8 is None or d8.get("kind") not in ("VarDecl", "ParmVarDecl") or FD.ctype(A.qtype(d8)) != ("ptr", 1):
+                        continue
+                    n8 += 1
+                    ok8 = k8 == 1 and _nonnul_known(upp, c8, pid8)
+                    ctx.ob("R09.8", "%s: %s(%s)" % (q8, A.callee_name(c8), A.src(e8)), ok8, site=A.where(c8), detail={"cursor": d8.get("name"), "offset": k8},
+                           key="R09.8:%s:%s(%s+%d)" % (q8, A.callee_name(c8), d8.get("name"), k8),
+                           what="%s calls %s(%s) although `%s` may point at the terminating NUL of the name: the search starts behind the string" % (q8, A.callee_name(c8), A.src(e8), d8.get("name")))
+    ctx.require(n8 >= 1, "R09.8: no `cursor + k` argument of a string function found in the walker functions (positive control vanished)")
+
+
+def _tests_nonnul(cond, pid):
+    """cond is `*p` / `p[0]` / `*p != 0` (truthy iff the byte under the cursor is not the terminator)"""
+    c = A.strip_casts(cond)
+    if c.get("kind") == "BinaryOperator" and c.get("opcode") == "!=" and A.int_literal(A.kids(c)[1]) == 0:
+        c = A.strip_casts(A.kids(c)[0])
+    if c.get("kind") == "UnaryOperator" and c.get("opcode") == "*" and A.ref_id(A.kids(c)[0]) == pid:
+        return True
+    if c.get("kind") == "ArraySubscriptExpr" and A.ref_id(A.kids(c)[0]) == pid and A.int_literal(A.kids(c)[1]) == 0:
+        return True
+    if c.get("kind") == "BinaryOperator" and c.get("opcode") == "&&":
+        return any(_tests_nonnul(k, pid) for k in A.kids(c))
+    return False
+
+
+def _tests_nul(cond, pid):
+    c = A.strip_casts(cond)
+    if c.get("kind") == "UnaryOperator" and c.get("opcode") == "!":
+        return _tests_nonnul(A.kids(c)[0], pid)
+    if c.get("kind") == "BinaryOperator" and c.get("opcode") == "==" and A.int_literal(A.kids(c)[1]) == 0:
+        return _tests_nonnul(A.kids(c)[0], pid)
+    return False
+
+
+def _stops_at_nonzero_char(cond, pid):
+    c = A.strip_casts(cond)
+    if c.get("kind") == "BinaryOperator" and c.get("opcode") == "!=":
+        l, r = A.kids(c)
+        v = A.int_literal(r)
+        ls = A.strip_casts(l)
+        return bool(v) and ls.get("kind") == "UnaryOperator" and ls.get("opcode") == "*" and A.ref_id(A.kids(ls)[0]) == pid
+    return False
+
+
+def _writes_var(st, pid):
+    for y in A.walk(st):
+        if y.get("kind") in ("BinaryOperator", "CompoundAssignOperator") and y.get("opcode", "").endswith("=") and y.get("opcode") not in ("==", "!=", "<=", ">=") and A.ref_id(A.kids(y)[0]) == pid:
+            return True
+        if y.get("kind") == "UnaryOperator" and y.get("opcode") in ("++", "--") and A.ref_id(A.kids(y)[0]) == pid:
+            return True
+    return False
+
+
+def _nonnul_known(u, node, pid):
+    """node lies on the true side of a test that *cursor is not NUL, or behind an early exit taken when it is; no
+    assignment to the cursor in between is looked for: the test and the use are expected in one expression/statement run"""
+    child = node
+    for p in u.ancestors(node):
+        k = p.get("kind")
+        ks = A.kids(p)
+        if k in ("ConditionalOperator", "IfStmt") and len(ks) >= 2:
+            if _contains7(ks[1], child) and _tests_nonnul(ks[0], pid):
+                return True
+            if len(ks) > 2 and _contains7(ks[2], child) and _tests_nul(ks[0], pid):
+                return True
+        if k == "BinaryOperator" and p.get("opcode") == "&&" and _contains7(ks[1], child) and _tests_nonnul(ks[0], pid):
+            return True
+        if k == "CompoundStmt":
+            known = False
+            for st in ks:
+                if st is child or _contains7(st, child):
+                    break
+                if st.get("kind") == "IfStmt" and len(A.kids(st)) == 2 and _tests_nul(A.kids(st)[0], pid) and \
+                        any(y.get("kind") in ("ReturnStmt", "ContinueStmt", "BreakStmt") for y in A.walk(A.kids(st)[1])):
+                    known = True
+                elif st.get("kind") == "WhileStmt" and _stops_at_nonzero_char(A.kids(st)[0], pid) and \
+                        not any(y.get("kind") == "BreakStmt" for y in A.walk(A.kids(st)[-1])):
+                    known = True           # `while(*p != '#') ...`: behind the loop *p is that character
+                elif _writes_var(st, pid):
+                    known = False
+            if known:
+                return True
+        if k in ("FunctionDecl", "CXXMethodDecl"):
+            break
+        child = p
+    return False
+
 
 def _contains7(root, node):
     nid = node.get("id")
